@@ -64,6 +64,8 @@ pub struct Ctx {
     caps_hit: Mutex<Vec<String>>,
     panics: Mutex<Vec<String>>,
     known: Vec<Known>,
+    /// Some(fingerprint) while replaying a recorded violation by re-running the check
+    replay_fp: Option<String>,
     /// known-finding fingerprint -> (first matching violation fingerprint, occurrences)
     known_hits: Mutex<BTreeMap<String, (String, u64)>>,
 }
@@ -107,7 +109,8 @@ impl Ctx {
             info: Mutex::new(BTreeMap::new()),
             caps_hit: Mutex::new(Vec::new()),
             panics: Mutex::new(Vec::new()),
-            known: load_known(id),
+            known: if std::env::var("MC_REPLAY_FP").is_ok() { vec![] } else { load_known(id) },
+            replay_fp: std::env::var("MC_REPLAY_FP").ok(),
             known_hits: Mutex::new(BTreeMap::new()),
         }
     }
@@ -164,6 +167,12 @@ impl Ctx {
     pub fn violation(&self, fingerprint: impl Into<String>, what: impl Into<String>, replay: J) {
         self.violation_count.fetch_add(1, Ordering::Relaxed);
         let fingerprint = fingerprint.into();
+        // replay-by-re-run: only the recorded fingerprint counts
+        if let Some(fp) = &self.replay_fp {
+            if *fp != fingerprint {
+                return;
+            }
+        }
         // listed (open) known findings are tallied separately so that they can never crowd an
         // unlisted violation out of the report
         if let Some(k) = self.known.iter().find(|k| k.status == "open" && fingerprint.starts_with(&k.fingerprint)) {
@@ -204,6 +213,20 @@ impl Ctx {
     /// Write evidence, print verdict lines, return process exit code.
     pub fn finish(self, rule: &str, bounds: J, assumptions: &[&str], exhaustive: bool) -> i32 {
         let viols = self.violations.lock().unwrap().clone();
+        if let Some(fp) = &self.replay_fp {
+            // replay mode: no evidence is written; the verdict is whether the recorded failure recurs
+            return match viols.first() {
+                Some(v) => {
+                    println!("replay: the recorded failure [{fp}] recurs:\n  {}", v.what.lines().take(8).collect::<Vec<_>>().join("\n  "));
+                    println!("VIOLATION property={} replay={}", self.id, std::env::var("MC_REPLAY_FILE").unwrap_or_default());
+                    1
+                }
+                None => {
+                    println!("replay: the recorded failure [{fp}] does not recur on the current tree");
+                    0
+                }
+            };
+        }
         let mut unlisted = 0;
         let mut listed = 0;
         let _ = std::fs::create_dir_all(format!("{}/replays/{}", verif_root(), self.id));
@@ -370,6 +393,28 @@ pub fn load_known(id: &str) -> Vec<Known> {
         }
     }
     out
+}
+
+/// Replay for checks whose cases are not individually serialisable: re-run the check (quick
+/// tier) looking only for the fingerprint recorded in the replay file.
+/// Returns 1 if it recurs, 0 if not, 2 if the file is not a replay file of property `id`.
+pub fn replay_by_rerun(id: &str, path: &str, run: impl FnOnce() -> i32) -> i32 {
+    let Some(doc) = std::fs::read_to_string(path).ok().and_then(|s| serde_json::from_str::<J>(&s).ok()) else {
+        eprintln!("cannot read replay file {path}");
+        return 2;
+    };
+    let (Some(prop), Some(fp)) = (doc["property"].as_str(), doc["fingerprint"].as_str()) else {
+        eprintln!("{path} is not a replay file");
+        return 2;
+    };
+    if prop != id {
+        eprintln!("{path} belongs to property {prop}, not {id}");
+        return 2;
+    }
+    println!("replaying [{fp}] by re-running {id} (quick tier); recorded: {}", doc["what"].as_str().unwrap_or("").lines().next().unwrap_or(""));
+    std::env::set_var("MC_REPLAY_FP", fp);
+    std::env::set_var("MC_REPLAY_FILE", path);
+    run()
 }
 
 /// Silence the default panic hook while exploring (panics are caught and reported as cases).
